@@ -1,13 +1,17 @@
 (* C08 — property theorems only.
 
-   M (Model.v) is slip's mechanism: list objects whose slots are replaced in place by compiled function
-   objects holding a pointer to a Lambda, Lambdas patched in place by defun, placeholders for calls of
-   functions that do not exist yet, Code.Compile.  S (Spec.v) evaluates the list forms as read with the
-   definition each name has at the moment of the call.  `Inv st` relates the compiled slots and the two
-   function tables of a model state; `Rel st ft` says the names have the definitions ft in st.
-   `comparable r`: r is a value or a condition other than undefined-function (and not "out of fuel"). *)
+   M (Model.v) is slip's mechanism (with repo_fixes/C08-1..4 applied): list objects whose slots are replaced in place
+   by compiled function objects holding a pointer to a Lambda, ONE registered Lambda per name that takes every
+   new definition over and that every creator hands out, placeholders for calls of functions that do not exist
+   yet, Code.Compile.  S (Spec.v) evaluates the list forms as read with the definition each name has at the
+   moment of the call.  `Inv st` relates the compiled slots and the two function tables of a model state;
+   `Rel st ft` says the names have the definitions ft in st.
+   `comparable r`: r is a value or a condition other than undefined-function (and not "out of fuel"): the domain
+   on which the one-policy specification evalS is binding.  There is no guard on programs or histories any more;
+   the undefined-function outcomes are covered exactly by evalL/runL, S with the lookup time of an undefined
+   operator (left open by CLHS 3.1.2.1.2.3) as a parameter - section (9b). *)
 From Coq Require Import List ZArith String Permutation.
-From C08 Require Import Model Spec Proofs ProofsLate.
+From C08 Require Import Model Spec Proofs ProofsLate ProofsProgram.
 Import ListNotations.
 
 (* (1) Cache transparency, and compiled = list form, at the level of one evaluation: in EVERY state
@@ -66,8 +70,8 @@ Proof. exact late_binding. Qed.
 Print Assumptions C08_redefinition_seen_by_cached_code.
 
 (* (6b) "A call to a not-yet-defined function still passes its arguments once the function exists":
-   compile a form while g is unknown (its calls of g become placeholder calls), then define g (always
-   inside the guard), then evaluate the compiled form: S's outcome with g's definition - in particular g's
+   compile a form while g is unknown (its calls of g become placeholder calls), then define g, then
+   evaluate the compiled form: S's outcome with g's definition - in particular g's
    parameters are bound to the values of the call's arguments. *)
 Theorem C08_forward_reference_passes_arguments : forall n st ft en e g ps body rS oS,
   Inv st -> Rel st ft -> slookup g (funcs st) = None ->
@@ -173,6 +177,46 @@ Theorem C08_bare_body_symbol_repaired :
   runS 50 sinit bare_ops2 = [(Err EUnbound, [])] /\ runM 50 minit bare_ops2 = [(Err EUnbound, [])].
 Proof. exact bare_symbol_repaired. Qed.
 Print Assumptions C08_bare_body_symbol_repaired.
+
+(* (11) The property for whole programs.  A program = a block of function definitions es (distinct names, `defs_are
+   es ds`) followed by main forms (at least one; none of them a definition); `prog cid es mains cmp k` = read it
+   into a code object, Code.Compile it or not (cmp), evaluate it k times.  `meaning n ds mains ft gv` = the main forms
+   evaluated by S with the definitions ds on top of the table ft.
+   S: every evaluation of the code object - compiled or not, first or k-th - has that meaning, and the meaning
+   does not depend on the order of the definitions. *)
+Theorem C08_program_meaning_spec : forall n es mains ds, defs_are es ds -> Forall plain mains -> mains <> [] ->
+  forall s cid cmp k, runS n s (prog cid es mains cmp k) = repeat (meaning n ds mains (sft s) (sgv s)) k.
+Proof. exact program_meaning_S. Qed.
+Print Assumptions C08_program_meaning_spec.
+Theorem C08_program_order_spec : forall n ds ds' mains ft gv, Permutation ds ds' -> NoDup (map fst ds) ->
+  meaning n ds mains ft gv = meaning n ds' mains ft gv.
+Proof. exact program_order_S. Qed.
+Print Assumptions C08_program_order_spec.
+(* M: in ANY state related to S's (whatever has been defined, called, compiled or redefined before), the program
+   with its definitions in one order, compiled or not, evaluated k times, and the program with its definitions in
+   any other order, compiled or not, evaluated k' times, give at EVERY evaluation the same outcome, S's meaning
+   (where that is a value or a condition other than undefined-function; those outcomes are covered by (9b)).
+   This is "a program means the same whether a function is defined before or after the functions that call it,
+   whether its code was pre-compiled or is evaluated from the list form, and whether it is evaluated for the first
+   or the hundredth time" for every program of the modelled language; no guard. *)
+Theorem C08_program_meaning_invariant : forall n m s es es' ds ds' mains cid cid' cmp cmp' k k',
+  HInv m s -> defs_are es ds -> defs_are es' ds' -> Permutation ds ds' -> NoDup (map fst ds) ->
+  Forall plain mains -> mains <> [] ->
+  comparable (fst (meaning n ds mains (sft s) (sgv s))) = true ->
+  runM n m (prog cid es mains cmp k) = repeat (meaning n ds mains (sft s) (sgv s)) k /\
+  runM n m (prog cid' es' mains cmp' k') = repeat (meaning n ds mains (sft s) (sgv s)) k'.
+Proof. exact program_meaning_M. Qed.
+Print Assumptions C08_program_meaning_invariant.
+(* the hypotheses are satisfiable: caller before callee evaluated once uncompiled, callee before caller compiled and
+   evaluated three times: (7 2) with 2 emitted, every time *)
+Theorem C08_program_demo :
+  defs_are [pd_caller; pd_callee] pd_ds /\ defs_are [pd_callee; pd_caller] (rev pd_ds) /\
+  Permutation pd_ds (rev pd_ds) /\ NoDup (map fst pd_ds) /\ Forall plain pd_mains /\ pd_mains <> [] /\
+  meaning 50 pd_ds pd_mains [] [] = (Val (VList [VInt 7%Z; VInt 2%Z]), [VInt 2%Z]) /\
+  runM 50 minit (prog 0 [pd_caller; pd_callee] pd_mains false 1) = repeat (meaning 50 pd_ds pd_mains [] []) 1 /\
+  runM 50 minit (prog 0 [pd_callee; pd_caller] pd_mains true 3) = repeat (meaning 50 pd_ds pd_mains [] []) 3.
+Proof. exact program_demo. Qed.
+Print Assumptions C08_program_demo.
 
 (* (10) The invariant holds initially; the hypotheses are satisfiable in a non-trivial reachable state
    (forward reference patched, compiled slots holding both the registered and a newer Lambda). *)
